@@ -376,4 +376,172 @@ theorem pStep_bound_root (frags : List Frag) (f0 : Frag) (h0 : frags[0]? = some 
       Option.map_some, Option.getD_some, hsb0, Bool.not_true, Bool.false_and, Bool.or_self]
 
 end
+
+/-! ## Reading the stack entries through the reference semantics -/
+
+section
+variable (ns : NsMap) (xvs : XVars) (frags : List Frag)
+
+/-- valid stack entries (`rw`: the events since the current fragment was entered) -/
+def EOk (E : PEntry) (rw : List Event) : Prop :=
+  match E with
+  | ⟨none, ic⟩ => ic = false
+  | ⟨some (fid, p), false⟩ => fid = 0 ∧ ∃ f0, frags[0]? = some f0 ∧ p < f0.tests.length
+  | ⟨some (fid, p), true⟩ =>
+      1 ≤ fid ∧ ∃ frag, frags[fid]? = some frag ∧
+        IsMax (Fof frag.tests) frag.tests.length (textOf ns rw) rw.length p
+
+/-- the nodes at or below `c` that an entry still designates -/
+def ESem (E : PEntry) (rw : List Event) (c t : LNode) : Prop :=
+  match E with
+  | ⟨none, _⟩ => False
+  | ⟨some (_, p), false⟩ =>
+      ∃ f0, frags[0]? = some f0 ∧
+        reach ns xvs (fragPath .self (f0.tests.drop p) ++ restPath frags 1) c t = true
+  | ⟨some (fid, p), true⟩ =>
+      ∃ frag, frags[fid]? = some frag ∧ SemIc ns xvs frag.tests (restPath frags (fid + 1)) rw c t
+
+theorem nodeEvent_ok (n : Node) (hcl : n.clean = true) :
+    (nodeEvent n).isEnd = false ∧ (nodeEvent n).isNsOrCdata = false := by
+  cases n with
+  | elem tg ats ks => exact ⟨rfl, rfl⟩
+  | leaf e =>
+    simp only [Node.clean, Bool.and_eq_true, Bool.not_eq_true'] at hcl
+    exact ⟨(isEnd_of_not_startEnd hcl.1).1, hcl.2⟩
+
+/-- a context-ignoring entry at one node -/
+theorem icOut_sem (hok : FragsOk frags) (c : LNode) (hcl : c.node.clean = true) (fid p : Nat) (rw : List Event)
+    (frag : Frag) (hfrag : frags[fid]? = some frag) (h1 : 1 ≤ fid)
+    (hmax : IsMax (Fof frag.tests) frag.tests.length (textOf ns rw) rw.length p) :
+    ∃ (rw' : List Event) (m : Bool), EOk ns frags (icOut ns frags (nodeEvent c.node) fid p).1 rw' ∧
+      (icOut ns frags (nodeEvent c.node) fid p).2 = (if m then .bool true else .none) ∧
+      ∀ t : LNode, SemIc ns xvs frag.tests (restPath frags (fid + 1)) rw c t ↔
+        ((m = true ∧ (c.loc == t.loc) = true) ∨
+         ∃ k ∈ childrenOf c, ESem ns xvs frags (icOut ns frags (nodeEvent c.node) fid p).1 rw' k t) := by
+  obtain ⟨fid', p', L, rw', frag', e1, e2, e3, e4, e5⟩ :=
+    icLoop_spec ns xvs frags hok c hcl (frags.length + 1) fid p rw frag hfrag h1 (by omega) hmax
+  refine ⟨rw', (fid' + 1 == frags.length && p' == L), ?_, ?_, fun t => ?_⟩
+  · simp only [icOut, e1, EOk]
+    exact ⟨e3, frag', e2, e4⟩
+  · simp only [icOut, e1, icResult]
+  · rw [e5 t]
+    simp only [icOut, e1, ESem]
+    constructor
+    · rintro (h | ⟨k, hk, h⟩)
+      · exact Or.inl h
+      · exact Or.inr ⟨k, hk, frag', e2, h⟩
+    · rintro (h | ⟨k, hk, f, hf, h⟩)
+      · exact Or.inl h
+      · rw [e2] at hf; cases hf
+        exact Or.inr ⟨k, hk, h⟩
+
+/-- the context-bound entry at one node -/
+theorem boundOut_sem (hok : FragsOk frags) (c : LNode) (hcl : c.node.clean = true) (f0 : Frag)
+    (h0 : frags[0]? = some f0) (p : Nat) (hp : p < f0.tests.length) :
+    ∃ (rw' : List Event) (m : Bool), EOk ns frags (boundOut ns frags (nodeEvent c.node) f0 p).1 rw' ∧
+      (boundOut ns frags (nodeEvent c.node) f0 p).2 = (if m then .bool true else .none) ∧
+      ∀ t : LNode, reach ns xvs (fragPath .self (f0.tests.drop p) ++ restPath frags 1) c t = true ↔
+        ((m = true ∧ (c.loc == t.loc) = true) ∨
+         ∃ k ∈ childrenOf c, ESem ns xvs frags (boundOut ns frags (nodeEvent c.node) f0 p).1 rw' k t) := by
+  have hmem : f0 ∈ frags := List.mem_of_getElem? h0
+  have hs : Simple (Fof f0.tests) f0.tests.length := simple_of_mem _ (hok.simple f0 hmem)
+  have hft : fragTest f0 p (nodeEvent c.node) ns = testNode (Fof f0.tests p) c.node ns := by
+    rw [fragTest_eq, simple_matches ns _ (hs p hp) c.node hcl]; simp [hp]
+  have hflpos : 0 < frags.length := (List.getElem?_eq_some_iff.mp h0).1
+  have hunf := fun t => reach_self_drop ns xvs f0.tests (restPath frags 1) p hp c t
+  unfold boundOut
+  by_cases ht : testNode (Fof f0.tests p) c.node ns = true
+  · rw [hft, ht]
+    simp only [Bool.not_true, Bool.false_eq_true, if_false]
+    by_cases hp1 : (p + 1 == f0.tests.length) = true
+    · have hp1' : p + 1 = f0.tests.length := by simpa using hp1
+      simp only [hp1, if_true]
+      by_cases hfl : (frags.length == 1) = true
+      · simp only [hfl, if_true, hok.attr f0 hmem]
+        refine ⟨[], true, rfl, rfl, fun t => ?_⟩
+        rw [hunf t, restPath_end frags 1 (by simp at hfl; omega)]
+        simp [ht, hp1', reach, ESem]
+      · simp only [hfl, Bool.false_eq_true, if_false]
+        have hlt : 1 < frags.length := by simp at hfl; omega
+        obtain ⟨nxt, hnxt⟩ : ∃ nxt, frags[1]? = some nxt := ⟨frags[1], List.getElem?_eq_getElem hlt⟩
+        have hnne : nxt.tests ≠ [] := hok.tail 0 nxt hnxt
+        have hR : restPath frags 1 = fragSteps nxt ++ restPath frags (1 + 1) := restPath_get frags 1 nxt hnxt
+        obtain ⟨g, G, hgG⟩ : ∃ g G, nxt.tests = g :: G := by
+          cases hnt : nxt.tests with
+          | nil => exact absurd hnt hnne
+          | cons g G => exact ⟨g, G, rfl⟩
+        by_cases hsb : nxt.selfBeginning = true
+        · simp only [hnxt, Option.map_some, Option.getD_some, hsb, Bool.not_true, Bool.false_eq_true, if_false]
+          obtain ⟨rw', m, o1, o2, o3⟩ := icOut_sem ns xvs frags hok c hcl 1 0 [] nxt hnxt (Nat.le_refl _) (isMax_nil ns nxt.tests)
+          refine ⟨rw', m, o1, o2, fun t => ?_⟩
+          rw [← o3 t, semIc_nil, hunf t, hR]
+          simp [ht, hp1', fragSteps, hsb]
+        · have hsb' : nxt.selfBeginning = false := by simpa using hsb
+          simp only [hnxt, Option.map_some, Option.getD_some, hsb', Bool.not_false, if_true]
+          refine ⟨[], false, ⟨Nat.le_refl _, nxt, hnxt, isMax_nil ns nxt.tests⟩, rfl, fun t => ?_⟩
+          rw [hunf t, hR]
+          simp only [ht, hp1', true_and, Nat.lt_irrefl, false_and, or_false, fragSteps, hsb', Bool.false_eq_true,
+            if_false, hgG, ESem]
+          rw [reach_descFrag]
+          simp only [List.any_eq_true, hnxt, Option.some.injEq, exists_eq_left', semIc_nil, hgG, false_or]
+    · have hp1' : p + 1 ≠ f0.tests.length := by simpa using hp1
+      simp only [hp1, Bool.false_eq_true, if_false]
+      refine ⟨[], false, ⟨rfl, f0, h0, by omega⟩, rfl, fun t => ?_⟩
+      rw [hunf t]
+      simp only [ht, hp1', true_and, false_and, false_or, ESem, Bool.false_eq_true]
+      constructor
+      · rintro ⟨_, k, hk, h⟩; exact ⟨k, hk, f0, h0, h⟩
+      · rintro ⟨k, hk, f, hf, h⟩
+        rw [h0] at hf; cases hf
+        exact ⟨by omega, k, hk, h⟩
+  · have ht' : testNode (Fof f0.tests p) c.node ns = false := by simpa using ht
+    rw [hft, ht']
+    simp only [Bool.not_false, if_true]
+    refine ⟨[], false, rfl, rfl, fun t => ?_⟩
+    rw [hunf t]
+    simp [ht', ESem]
+
+/-- **one event**: the matcher's step on a valid entry gives a valid entry for the children,
+    and the entry designates: this node iff a match is reported, plus whatever the new entry
+    designates below the children -/
+theorem visit (hok : FragsOk frags) (E : PEntry) (rw : List Event) (hE : EOk ns frags E rw) (c : LNode)
+    (hcl : c.node.clean = true) (rest : PState) :
+    ∃ (E' : PEntry) (rw' : List Event) (m : Bool), EOk ns frags E' rw' ∧
+      pStep (some frags) false ns (E :: rest) (nodeEvent c.node)
+        = ((if (nodeEvent c.node).isStart then E' :: E :: rest else E :: rest), if m then .bool true else .none) ∧
+      ∀ t : LNode, ESem ns xvs frags E rw c t ↔
+        ((m = true ∧ (c.loc == t.loc) = true) ∨ ∃ k ∈ childrenOf c, ESem ns xvs frags E' rw' k t) := by
+  obtain ⟨he, hm⟩ := nodeEvent_ok c.node hcl
+  obtain ⟨fp, ic⟩ := E
+  cases fp with
+  | none =>
+    simp only [EOk] at hE
+    subst hE
+    refine ⟨⟨none, false⟩, [], false, rfl, pStep_dead ns frags _ rest he hm, fun t => ?_⟩
+    simp [ESem]
+  | some fpv =>
+    obtain ⟨fid, p⟩ := fpv
+    cases ic with
+    | false =>
+      obtain ⟨rfl, f0, h0, hp⟩ := hE
+      obtain ⟨rw', m, o1, o2, o3⟩ := boundOut_sem ns xvs frags hok c hcl f0 h0 p hp
+      refine ⟨_, rw', m, o1, ?_, fun t => ?_⟩
+      · rw [pStep_bound ns frags false f0 h0 p hp rest _ he hm, o2]
+      · rw [← o3 t]
+        simp only [ESem]
+        constructor
+        · rintro ⟨f, hf, h⟩; rw [h0] at hf; cases hf; exact h
+        · intro h; exact ⟨f0, h0, h⟩
+    | true =>
+      obtain ⟨h1, frag, hfrag, hmax⟩ := hE
+      obtain ⟨rw', m, o1, o2, o3⟩ := icOut_sem ns xvs frags hok c hcl fid p rw frag hfrag h1 hmax
+      refine ⟨_, rw', m, o1, ?_, fun t => ?_⟩
+      · rw [pStep_ic ns frags false fid p rest _ he hm, o2]
+      · rw [← o3 t]
+        simp only [ESem]
+        constructor
+        · rintro ⟨f, hf, h⟩; rw [hfrag] at hf; cases hf; exact h
+        · intro h; exact ⟨frag, hfrag, h⟩
+
+end
 end Genshi.Path.Frags
